@@ -1,6 +1,60 @@
-From Coq Require Import List String.
-From GinV Require Import Model.Values Model.Gin.
+(* C09 — config scopes nest, are restored on every exit path, and are private to a thread.
+   Statements only; proofs in Proofs/MachineProofs.v, Proofs/ScopeThreadsProofs.v. *)
+From Coq Require Import List String ZArith Bool.
+From GinV Require Import Lib.Out Lib.PyStr Model.SelectorMap Model.Values Model.Gin Model.GinEngine
+                         Proofs.MachineFrame Proofs.MachineProofs.
 Import ListNotations.
-Theorem C09_placeholder : prefixes [1;2] = [[]; [1]; [1;2]].
-Proof. reflexivity. Qed.
-Print Assumptions C09_placeholder.
+Open Scope string_scope.
+Open Scope list_scope.
+
+(* composition rule of config_scope *)
+Theorem C09_compose : forall cur,
+  (forall l, enter_scope_value cur (SList l) = (l, true)) /\
+  (forall str, str <> "" -> enter_scope_value cur (SStr str) = (cur ++ split_slash str, true)) /\
+  enter_scope_value cur (SStr "") = ([], true) /\ enter_scope_value cur SNone = ([], true).
+Proof. exact enter_scope_compose. Qed.
+
+(* inside the block the body runs under exactly the composed scope *)
+Theorem C09_body_scope : forall f s a body new_scope,
+  enter_scope_value (current_scope s) a = (new_scope, true) -> scope_valid new_scope = true ->
+  exec (S f) s (OWith a body) =
+  (let '(s2, r) := exec_body f (emit (OL (map OS new_scope)) (set_scopes (new_scope :: scopes s) s)) body in
+   (set_scopes (tl (scopes s2)) s2, r)).
+Proof. exact with_body_scope_exec_body. Qed.
+
+(* an invalid scope value raises, runs nothing, and leaves the stack as it was *)
+Theorem C09_invalid_scope : forall f s a body new_scope valid,
+  enter_scope_value (current_scope s) a = (new_scope, valid) ->
+  (valid = false \/ scope_valid new_scope = false) ->
+  exists s', exec (S f) s (OWith a body) = (s', Raise "ValueError") /\
+             scopes s' = scopes s /\ config s' = config s /\ obs s' = obs s.
+Proof. exact with_invalid_raises. Qed.
+
+(* THE restoration theorem: every op of the language — config_scope blocks of any nesting depth,
+   bodies that raise, scoped references, get_configurable with a scope, nested configurable calls —
+   leaves the scope stack exactly as it found it, on both the normal and the exceptional exit *)
+Theorem C09_restored : forall fuel s o s' r, exec fuel s o = (s', r) -> scopes s' = scopes s.
+Proof. exact exec_scopes_restored. Qed.
+
+Theorem C09_restored_history : forall fuel ops s, scopes (run_top fuel s ops) = scopes s.
+Proof. exact run_top_scopes. Qed.
+
+(* calls and reference evaluation restore the stack as well (and never touch the store) *)
+Theorem C09_call_frame : forall fuel s sel args kw s' r, call fuel s sel args kw = (s', r) -> same_static s s'.
+Proof. exact call_frame. Qed.
+
+Example C09_nonvacuous :
+  let s := run_top 50 init_state
+    [OWith (SStr "a") [OWith (SStr "b/c") [OCurScope; OWith (SList ["z"]) [OCurScope; ORaise]; OCurScope]];
+     OCurScope; OWith (SStr "a") [OWith (SStr "1x") [OCurScope]]; OCurScope] in
+  scopes s = [[]] /\
+  rev (obs s) = [OL [OS "a"]; OL [OS "a"; OS "b"; OS "c"]; OL [OS "a"; OS "b"; OS "c"]; OL [OS "z"]; OL [OS "z"];
+                 OErr "KeyError"; OL []; OL [OS "a"]; OErr "ValueError"; OL []].
+Proof. vm_compute. split; reflexivity. Qed.
+
+Print Assumptions C09_compose.
+Print Assumptions C09_body_scope.
+Print Assumptions C09_invalid_scope.
+Print Assumptions C09_restored.
+Print Assumptions C09_restored_history.
+Print Assumptions C09_call_frame.
